@@ -734,6 +734,10 @@ def label_fn(spec):
         return lambda i: i - 1
     if scheme == "offset":
         off = spec.get("offset", 17)
+        if spec.get("type") == "np":
+            return lambda i: np.int64(i - 1 + off)      # labels taken from a NumPy array (np.arange(...))
+        if spec.get("type") == "float":
+            return lambda i: float(i - 1 + off)         # wall-clock-like labels
         return lambda i: i - 1 + off
     if scheme == "gaps":
         r = _pyrandom.Random(H(spec.get("seed", 0), "labels"))
